@@ -5,7 +5,8 @@ import StoneVerif.Model.DeclPyClient
 Encodings
 * type   `["p", name] | ["void"] | ["nullable", t] | ["list", t] | ["map", k, v] | ["alias", ns, name, t] |
           ["struct", ns, name] | ["union", ns, name]`
-* lit    `["b", bool] | ["i", "<decimal>"] | ["f", "<bits>"] | ["s", text] | ["t", union ns, union name, tag]`
+* lit    `["b", bool] | ["i", "<decimal>"] | ["f", "<bits>"] | ["s", text] | ["t", type, tag]` (type = the `union_data_type` of the
+          `TagRef`: the union or an alias of it)
 * val    `["none"] | ["lit", lit] | ["tagobj", union ns, union name, attribute] | ["tok", n]`
 * api    `{"namespaces": [{"name", "dataTypes": [name], "aliases": [[name, type]], "routes": [{"name", "version", "arg", "result",
           "deprecated": null | {"by": null | [name, version]}, "style": null | text}]}],
@@ -67,18 +68,28 @@ def litOfJson (j : Json) : Except String Lit := do
     | "f" => pure (.float (← natOfStr (← a.getStr?)))
     | "s" => pure (.str (← strOf a))
     | s => throw s!"bad literal tag {s}"
-  | [k, a, b, c] =>
+  | [k, a, b] =>
     match ← k.getStr? with
-    | "t" => pure (.tag (← strOf a) (← strOf b) (← strOf c))
+    | "t" => pure (.tag (← tyOfJson a) (← strOf b))
     | s => throw s!"bad literal tag {s}"
   | _ => throw "bad literal"
+
+def tyToJson : Ty → Json
+  | .prim n => Json.arr #["p", jn n]
+  | .void => Json.arr #["void"]
+  | .nullable t => Json.arr #["nullable", tyToJson t]
+  | .list t => Json.arr #["list", tyToJson t]
+  | .map k v => Json.arr #["map", tyToJson k, tyToJson v]
+  | .alias a b t => Json.arr #["alias", jn a, jn b, tyToJson t]
+  | .struct a b => Json.arr #["struct", jn a, jn b]
+  | .union a b => Json.arr #["union", jn a, jn b]
 
 def litToJson : Lit → Json
   | .bool b => Json.arr #["b", Json.bool b]
   | .int i => Json.arr #["i", Json.str (toString i)]
   | .float n => Json.arr #["f", Json.str (toString n)]
   | .str s => Json.arr #["s", jn s]
-  | .tag a b c => Json.arr #["t", jn a, jn b, jn c]
+  | .tag u t => Json.arr #["t", tyToJson u, jn t]
 
 def valOfJson (j : Json) : Except String Val := do
   match ← arrOf j with
@@ -164,10 +175,10 @@ def pyErrToJson : PyErr → Json
   | .typeError => Json.arr #["typeError"]
 
 def genErrToJson : GenErr → Json
-  | .multilineDefault f => Json.arr #["multilineDefault", jn f]
   | .nameConflict ns => Json.arr #["nameConflict", jn ns]
   | .unhandledArgType ns r => Json.arr #["unhandledArgType", jn ns, jn r]
   | .defaultWithoutNamespace f => Json.arr #["defaultWithoutNamespace", jn f]
+  | .defaultNotUserDefined f => Json.arr #["defaultNotUserDefined", jn f]
 
 def argBuildToJson : ArgBuild → Json
   | .void => Json.arr #["void"]
@@ -226,9 +237,6 @@ def handle (op : String) (j : Json) : Except String Json := do
       let n := s2l n
       Json.arr #[jn (fmtUnderscores n), jn (fmtPascal n), jn (fmtFunc n version), jn (fmtNamespace n), jn (fmtVarR n),
                  Json.arr ((splitWords n).map jn).toArray]).toArray)])
-  | "decl.pyclient.wraps" =>
-    let texts ← strList j "texts"
-    pure (ok [("out", Json.arr (texts.map fun t => Json.bool (pformatWraps (s2l t))).toArray)])
   | "decl.pyclient.keywords" =>
     pure (ok [("python", Json.arr (pyKeywords.map jn).toArray), ("reserved", Json.arr (reservedKeywords.map jn).toArray)])
   | "decl.pyclient.module" =>
@@ -238,7 +246,7 @@ def handle (op : String) (j : Json) : Except String Json := do
     | .ok cm =>
       let ctors := api.structs.map fun s =>
         Json.arr #[jn s.ref.1, jn s.ref.2, Json.arr ((structCtorParams api s.ref).map jn).toArray,
-                   Json.bool (noNullableAlias api s.ref), Json.bool (defaultsWellTyped api s.ref && defaultsPrintable api s.ref)]
+                   Json.bool (noNullableAlias api s.ref), Json.bool (defaultsWellTyped api s.ref)]
       pure (ok [("imports", Json.arr (cm.imports.map jn).toArray), ("importsWarnings", Json.bool cm.importsWarnings),
                 ("methods", Json.arr (cm.methods.map (methodToJson api cm)).toArray),
                 ("load", match loadModule api cm with | .ok _ => Json.null | .error e => pyErrToJson e),
